@@ -15,8 +15,6 @@ import (
 	"verifharness/gen"
 	"verifharness/model"
 	"verifharness/stats"
-
-	dt "verifharness/dertree"
 )
 
 // judgeLifecycle: the framework's result equals the reference lifecycle for
@@ -86,7 +84,7 @@ func judgeLifecycle(rec *stats.Rec, c engine.Case) (string, string, *engine.Run)
 type scopeSpec struct {
 	EKU    int // -1 none, else index into gen.AllEKUs
 	Policy int // -1 none, else index into scopePolicies
-	Mail   int // 0 absent, 1 rfc822Name, 2 SmtpUTF8Mailbox otherName, 3 empty rfc822Name
+	Mail   int // index into gen.ScopeMailKinds: absent, rfc822Name, SmtpUTF8Mailbox (well-formed, malformed, empty), ...
 }
 
 // scopePolicies: the policy *sets* of the matrix - each scope OID alone, anyPolicy, an unrelated OID; the
@@ -113,34 +111,11 @@ var scopePolicies = func() [][][]int {
 }()
 
 func applyScope(base gen.Obj, s scopeSpec) ([]byte, bool) {
-	v, err := gen.ViewCert(base.DER)
-	if err != nil {
-		return nil, false
+	var pol [][]int
+	if s.Policy >= 0 {
+		pol = scopePolicies[s.Policy]
 	}
-	if s.EKU < 0 {
-		v.SetEKU()
-	} else {
-		v.SetEKU(gen.AllEKUs[s.EKU])
-	}
-	if s.Policy < 0 {
-		v.SetPolicies()
-	} else {
-		v.SetPolicies(scopePolicies[s.Policy]...)
-	}
-	gns := []*dt.Node{gen.GNDNS([]byte("scope.example.com"))}
-	switch s.Mail {
-	case 1:
-		gns = append(gns, gen.GNEmail([]byte("user@example.com")))
-	case 2:
-		gns = append(gns, gen.GNOther([]int{1, 3, 6, 1, 5, 5, 7, 8, 9}, dt.Prim(0, 12, []byte("user@example.com"))))
-	case 3:
-		gns = append(gns, gen.GNEmail([]byte{}))
-	}
-	v.SetSAN(false, gns...)
-	if pc, ok := gen.ParseCert(base.DER); ok && pc.SelfSigned {
-		v.SelfSign()
-	}
-	return v.DER(), true
+	return gen.ScopeVariant(base.DER, s.EKU, pol, s.Mail)
 }
 
 // scopeBases picks the corpus certificates that are home to most TLS-BR,
@@ -239,7 +214,7 @@ func TestC04(t *testing.T) {
 		bs := baseStage(b)
 		for e := -1; e < len(gen.AllEKUs); e++ {
 			for p := -1; p < len(scopePolicies); p++ {
-				for m := 0; m < 4; m++ {
+				for m := 0; m < gen.ScopeMailKinds; m++ {
 					k++
 					if !stats.Mine(k) {
 						continue
